@@ -7,12 +7,14 @@ import (
 	"crypto/tls"
 	"crypto/x509"
 	"encoding/base64"
+	"encoding/pem"
 	"fmt"
 	"math"
 	mrand "math/rand/v2"
 	"os"
 	"path/filepath"
 	"strings"
+	"sync/atomic"
 
 	saml2 "github.com/russellhaering/gosaml2"
 	"github.com/russellhaering/gosaml2/types"
@@ -148,8 +150,36 @@ func c09Configs() []c09cfg {
 			sp.ValidateEncryptionCert = true
 			return sp
 		}},
+		{"cert-bytes-not-der", func(w *World) *saml2.SAMLServiceProvider {
+			// the SP certificate bytes are whatever the deployment loaded from disk: PEM instead of DER, a PEM bundle
+			// without a CERTIFICATE block, a key file, a cut-off file (rotating through the forms, both key APIs)
+			sp, _, _ := NewSP(w.Now, w.IdP[0])
+			i := int(c09CertForm.Add(1))
+			der := w.SPEnc.DER
+			pemOf := func(typ string, b []byte) []byte { return pem.EncodeToMemory(&pem.Block{Type: typ, Bytes: b}) }
+			forms := [][]byte{pemOf("CERTIFICATE", der), pemOf("TRUSTED CERTIFICATE", der), pemOf("RSA PRIVATE KEY", []byte{0x30, 0x03, 0x02, 0x01, 0x00}),
+				pemOf("CERTIFICATE", der)[:40], []byte("-----BEGIN CERTIFICATE-----\n"), append(pemOf("PRIVATE KEY", []byte{0x30, 0x00}), pemOf("CERTIFICATE REQUEST", der[:20])...),
+				[]byte("-----BEGIN "), der[:len(der)/2], append([]byte{0xef, 0xbb, 0xbf}, pemOf("CERTIFICATE", der)...)}
+			b := forms[i%len(forms)]
+			if (i/len(forms))%2 == 0 {
+				sp.SetSPKeyStore(&saml2.KeyStore{Signer: w.SPEnc.Key.Signer, Cert: b})
+			} else {
+				sp.SPKeyStore = rawKeyStore{w.SPEnc.Key.RSA(), b}
+			}
+			sp.ValidateEncryptionCert = (i/(2*len(forms)))%2 == 0
+			return sp
+		}},
 	}
 }
+
+var c09CertForm atomic.Int64
+
+type rawKeyStore struct {
+	k *rsa.PrivateKey
+	b []byte
+}
+
+func (s rawKeyStore) GetKeyPair() (*rsa.PrivateKey, []byte, error) { return s.k, s.b, nil }
 
 // c09Call presents s to every string entry point of sp and applies the totality oracle.
 func c09Call(cs *mon.Case, sp *saml2.SAMLServiceProvider, cfg string, s string) {
